@@ -1,4 +1,6 @@
 """C05 — dimensionally incompatible operations fail loudly and change nothing."""
+from collections import OrderedDict
+
 from hypothesis import given, strategies as st
 
 from bv import core, dims, env, gen, legacy, snapshot
@@ -20,7 +22,7 @@ RULE = (
     "raise; the same for categories registered at run time under the name of another quantity type. (d) generated sequences interleaving such rejected calls with valid operations on a pool: after every "
     "rejected call the full registry snapshot (all public getters + both conversion functions sampled), every pool "
     "object's snapshot, the soundness of the memoised verdicts/cached quantities and the results of a fixed battery of "
-    "valid operations are identical. Units used without a category before their default category is re-bound to another quantity type are rejected afterwards in the category-less forms too. The reciprocal or another power of an amount does not convert to a unit of the same quantity type (exponent-list form with opposite signs, (1/Scalar).GetValue(unit)); rejected sums of operands that belong to another database leave the current database current. Non-trivial = the two dimension vectors share a quantity type or a unit-symbol "
+    "valid operations are identical. Units used without a category before their default category is re-bound to another quantity type are rejected afterwards in the category-less forms too. The reciprocal or another power of an amount does not convert to a unit of the same quantity type (exponent-list form with opposite signs, (1/Scalar).GetValue(unit)); rejected sums of operands that belong to another database leave the current database current. The validating constructor of derived quantities (Quantity.CreateDerived) is a construction route too: one factor under exponents 1, 2, -1 and next to a valid factor. Non-trivial = the two dimension vectors share a quantity type or a unit-symbol "
     "prefix (near miss); key = (route, dims a, dims b) resp. (route, unit, target)."
 )
 ASSUMPTIONS = [
@@ -62,6 +64,8 @@ def must_raise(ctx, key, case, fn, what):
         ctx.cls("raised_%s" % type(e).__name__)
         return True
     except Exception as e:
+        if isinstance(e, NameError) and core.tree_frame(e) is None:
+            raise  # a slip of the harness itself, not an answer of the library
         ctx.fail("wrong_exception_family:%s:%s" % (key, type(e).__name__), case, "%s raised %s: %s (a units/type error is required)" % (what, type(e).__name__, str(e)[:200]))
         return False
     ctx.fail("incompatible_operation_returned:%s" % key, case, "%s returned %r instead of raising" % (what, r))
@@ -76,6 +80,8 @@ def must_raise_rec(ctx, key, case, fn, what):
     except _ok_exc():
         return
     except Exception as e:
+        if isinstance(e, NameError) and core.tree_frame(e) is None:
+            raise  # a slip of the harness itself, not an answer of the library
         ctx.record("wrong_exception_family:%s:%s" % (key, type(e).__name__), case, "%s raised %s: %s (a units/type error is required)" % (what, type(e).__name__, str(e)[:200]))
         return
     ctx.record("incompatible_operation_returned:%s" % key, case, "%s returned %r instead of raising" % (what, r))
@@ -191,7 +197,17 @@ class Sweep:
             ("FractionScalar(v,u,c)", lambda: FractionScalar(x, u, c)),
             ("FractionScalar(c,v,u)", lambda: FractionScalar(c, x, u)),
             ("db.CheckCategoryUnit", lambda: self.db.CheckCategoryUnit(c, u)),
+            # the validating constructor of derived quantities: one factor under any exponent, and next to a valid factor
+            ("Quantity.CreateDerived({c:[u,1]})", lambda: Quantity.CreateDerived(OrderedDict([(c, [u, 1])]))),
+            ("Quantity.CreateDerived({c:[u,2]})", lambda: Quantity.CreateDerived(OrderedDict([(c, [u, 2])]))),
+            ("Quantity.CreateDerived({c:[u,-1]})", lambda: Quantity.CreateDerived(OrderedDict([(c, [u, -1])]))),
+            ("Quantity.CreateDerived({valid, c:[u,1]})", lambda: Quantity.CreateDerived(OrderedDict([self._valid_factor(c), (c, [u, 1])]))),
+            ("Quantity.CreateDerived({c:[u,-2], valid})", lambda: Quantity.CreateDerived(OrderedDict([(c, [u, -2]), self._valid_factor(c)]))),
         ]
+
+    def _valid_factor(self, c):
+        other = "time" if c != "time" else "length"
+        return (other, [self.db.GetDefaultUnit(other), 1])
 
     def convert_row(self, qt, u, targets, x, object_every):
         """source unit u against target units of other quantity types"""
@@ -250,7 +266,7 @@ class Sweep:
             if object_every and j % object_every == 0:
                 routes = self.construct_routes(c, u, x)
                 k = (j // object_every) % len(routes)
-                for name, fn in (routes if object_every == 1 else [routes[k], routes[(k + 5) % len(routes)]]):
+                for name, fn in (routes if object_every == 1 else [routes[k], routes[(k + 5) % len(routes)], routes[(k + 11) % len(routes)]]):
                     must_raise_rec(ctx, name, dict(case, route=name), fn, "%s with unit %r and category %r" % (name, u, c))
                     ctx.cls("route_" + name)
             if _near(u, db.GetDefaultUnit(c) or ""):
